@@ -20,7 +20,14 @@
 //	both        no HTLC is ordered settled and ordered canceled (across return values, hodl
 //	            deliveries and recorded states, over the whole history);
 //	kvsql-*     the key-value store and the SQL store produce the same verdicts, states and
-//	            amounts for the same history.
+//	            amounts for the same history;
+//	bystander   (worlds with a second invoice) no event of the alphabet carries the bystander
+//	            invoice's payment hash together with its payment address, so -- by the address
+//	            and preimage clauses -- it records no HTLC and never changes;
+//	monotone-invoice-vanished knows the two configured ways an invoice may disappear: a
+//	            successful CancelInvoice with GcCanceledInvoicesOnTheFly, and a registry start with
+//	            GcCanceledInvoicesOnStartup while the invoice is canceled. The HTLCs of a deleted
+//	            invoice keep their last recorded state for the replay and "both" clauses.
 //
 // Not judged (the property statement does not demand it): which failure code a refusal
 // carries; AMP sub-invoice (set) states; an HTLC that was refused *without being recorded*
@@ -34,6 +41,7 @@ import (
 	"sort"
 	"strings"
 	"sync"
+	"time"
 
 	"github.com/lightningnetwork/lnd/lntypes"
 )
@@ -120,7 +128,7 @@ func (o stepOut) render() string {
 
 type event struct {
 	op     string
-	class  string // htlc | replay | cancel | settle | timeout | height | noop
+	class  string // htlc | replay | cancel | settle | timeout | height | restart | noop
 	spec   htlcSpec
 	key    int
 	right  bool // settle: right preimage
@@ -150,11 +158,17 @@ type World struct {
 	baseSet bool
 	// lastCancel is the outcome code of the last cancel order per circuit key
 	lastCancel map[int]string
+	two        bool
+	bystander  []invObs // the bystander invoice as first observed, per side
+	// ghost: last recorded state of the HTLCs of an invoice that was deleted by a configured
+	// garbage collection, per side
+	ghost []map[int]string
 }
 
 type worldOpts struct {
 	kind   string
 	keys   int // bound on recorded HTLCs (0 = maxKeys)
+	two    bool // a bystander invoice exists next to the invoice under test
 	stores []string // default kv+sql
 	rep    reporter
 	st     *Stats
@@ -172,15 +186,22 @@ func newWorld(o worldOpts) (*World, error) {
 	if o.keys == 0 {
 		o.keys = maxKeys
 	}
-	w := &World{kind: k, rec: map[int]recKey{}, rep: o.rep, st: o.st, logf: o.logf, keys: o.keys}
+	if k.JIT != "" {
+		o.two = false
+	}
+	w := &World{kind: k, rec: map[int]recKey{}, rep: o.rep, st: o.st, logf: o.logf, keys: o.keys, two: o.two}
 	for _, name := range o.stores {
-		s, err := newSide(name, k)
+		s, err := newSide(name, k, o.two)
 		if err != nil {
 			w.Close()
 			return nil, err
 		}
 		w.sides = append(w.sides, s)
 		w.last = append(w.last, s.lookup())
+		w.ghost = append(w.ghost, map[int]string{})
+		if o.two {
+			w.bystander = append(w.bystander, s.lookupBystander())
+		}
 	}
 	return w, nil
 }
@@ -246,6 +267,30 @@ func (w *World) Key() string {
 	}
 	var b strings.Builder
 	fmt.Fprintf(&b, "%s h+%d | %s |", w.kind.Name, w.hOff, w.last[0].canon())
+	// in-memory state of the registry instance (provenance: a restarted registry has neither
+	// subscriptions nor timers for the HTLCs it finds accepted in the store): per accepted
+	// HTLC whether this instance holds its subscription / timer, and -- while the invoice is
+	// open -- whether its hold time has already passed (a replay then re-arms a timer that is
+	// due at once)
+	if o := w.last[0]; o.Found {
+		for _, h := range o.Htlcs {
+			if h.State != "acc" {
+				continue
+			}
+			sub := "unsub"
+			if w.sides[0].armed[h.Key] {
+				sub = "sub"
+			}
+			fmt.Fprintf(&b, " k%d:%s", h.Key, sub)
+			if o.State == "Open" && w.overdue(0, h) {
+				b.WriteString("/overdue")
+			}
+		}
+		b.WriteString(" |")
+	}
+	for _, g := range w.ghostSorted(0) {
+		b.WriteString(" ghost:" + g)
+	}
 	var ks []int
 	for k := range w.rec {
 		ks = append(ks, k)
@@ -255,6 +300,38 @@ func (w *World) Key() string {
 		fmt.Fprintf(&b, " k%d=%s@%d/v%d", k, w.rec[k].Op, w.rec[k].ArrH-baseHeight, w.sides[0].hist[k])
 	}
 	return b.String()
+}
+
+// overdue reports whether the hold time of an accepted HTLC has passed on side i.
+func (w *World) overdue(i int, h htlcObs) bool {
+	now := int64(w.sides[i].dbClk.Now().Sub(startTime) / time.Second)
+	return now-h.AccT >= int64(holdDur/time.Second)
+}
+
+func (w *World) ghostSorted(i int) []string {
+	var ks []int
+	for k := range w.ghost[i] {
+		ks = append(ks, k)
+	}
+	sort.Ints(ks)
+	var out []string
+	for _, k := range ks {
+		out = append(out, fmt.Sprintf("k%d=%s", k, w.ghost[i][k]))
+	}
+	return out
+}
+
+func (w *World) sideIndex(s *side) int {
+	for i, x := range w.sides {
+		if x == s {
+			return i
+		}
+	}
+	return 0
+}
+
+func isHTLCOp(op string) bool {
+	return strings.HasPrefix(op, "h:") || strings.HasPrefix(op, "hx:") || strings.HasPrefix(op, "ha:")
 }
 
 func (w *World) freshKey() int {
@@ -268,7 +345,7 @@ func (w *World) freshKey() int {
 
 func (w *World) parse(op string) (event, error) {
 	switch {
-	case strings.HasPrefix(op, "h:"):
+	case isHTLCOp(op):
 		sp, err := parseHTLC(op)
 		if err != nil {
 			return event{}, err
@@ -298,6 +375,8 @@ func (w *World) parse(op string) (event, error) {
 		return event{op: op, class: "settle", zero: true}, nil
 	case op == "t":
 		return event{op: op, class: "timeout"}, nil
+	case op == "R":
+		return event{op: op, class: "restart"}, nil
 	case op == "b":
 		if w.hOff >= 2 {
 			return event{op: op, class: "noop"}, nil
@@ -314,14 +393,43 @@ func (w *World) apply(s *side, ev event, pre invObs) stepOut {
 	case "htlc", "replay":
 		v := s.notify(ev.spec, ev.key, w.height())
 		out.direct = &v
-		out.delivered = s.drain()
+		if v.Kind == "accept" {
+			s.armed[ev.key] = true
+			// A replay that is told "held" while the invoice is open re-arms the auto-release
+			// timer with the ORIGINAL accept time; if the hold time has passed already
+			// (possible only after a restart) the timer is due at once: wait for the
+			// registry's completion signal, the cancel resolution of this HTLC.
+			if h := pre.htlc(ev.key); ev.class == "replay" && pre.Found && pre.State == "Open" && h != nil && h.State == "acc" &&
+				w.overdue(w.sideIndex(s), *h) {
+
+				for {
+					d, ok := s.awaitHodl()
+					if !ok {
+						s.stalled = fmt.Sprintf("no resolution for the overdue replayed htlc k%d on %s within %v", ev.key, s.name, stallGuard)
+						break
+					}
+					out.delivered = append(out.delivered, d)
+					if d.Key == ev.key {
+						break
+					}
+				}
+			}
+		}
+		out.delivered = append(out.delivered, s.drain()...)
 	case "cancel":
 		if err := s.reg.CancelInvoice(bg, w.eventHash()); err != nil {
 			out.callErr = firstLine(err.Error())
 		}
 		out.delivered = s.drain()
+	case "restart":
+		if err := s.restart(); err != nil {
+			out.callErr = firstLine(err.Error())
+		}
 	case "settle":
 		p := invPreimage
+		if w.kind.JIT == "keysend" {
+			p = ksPreimage
+		}
 		if !ev.right {
 			p = wrongPreimg
 		}
@@ -441,6 +549,9 @@ func (w *World) account(ev event, out stepOut) {
 	cls := ev.class
 	if ev.class == "htlc" {
 		cls = "htlc-" + string(ev.spec.Pay)
+		if ev.spec.Icpt != 0 {
+			cls += "/icpt-" + string(ev.spec.Icpt)
+		}
 	}
 	nd := 0
 	for _, d := range out.delivered {
@@ -490,10 +601,33 @@ func setOf(sp htlcSpec, k int) string {
 func (w *World) judge(s *side, ev event, pre invObs, out stepOut) {
 	post := out.post
 	store := s.name
+	si := w.sideIndex(s)
 
 	// --- monotone
 	if pre.Found && !post.Found {
-		w.violate("monotone-invoice-vanished", store, "", fmt.Sprintf("after %s the invoice can no longer be looked up (%s)", ev.op, post.Err))
+		// the two configured garbage collections
+		gcFly := ev.class == "cancel" && w.kind.GcFly && out.callErr == "" && pre.State != "Settled"
+		gcStart := ev.class == "restart" && w.kind.GcStart && pre.State == "Canceled"
+		if gcFly || gcStart {
+			w.st.clause("invoice-garbage-collected")
+			for _, h := range pre.Htlcs {
+				st := h.State
+				if st == "acc" {
+					st = "can" // canceled together with the invoice
+				}
+				w.ghost[si][h.Key] = st
+			}
+		} else {
+			w.violate("monotone-invoice-vanished", store, ev.class, fmt.Sprintf("after %s the invoice can no longer be looked up (%s)", ev.op, post.Err))
+		}
+	}
+	if w.two && (ev.class == "cancel" || ev.class == "restart" || ev.spec.foreign()) {
+		w.st.clause("bystander")
+		if b := s.lookupBystander(); b.canon() != w.bystander[si].canon() {
+			w.violate("bystander-touched", store, ev.class+":"+string(rune0(ev.spec.Pay))+string(rune0(ev.spec.Addr)),
+				fmt.Sprintf("%s changed the bystander invoice, which no event pays: {%s} -> {%s}", ev.op, w.bystander[si].canon(), b.canon()))
+			w.dead = "bystander invoice touched"
+		}
 	}
 	if pre.Found && post.Found {
 		if pre.State != post.State {
@@ -527,7 +661,7 @@ func (w *World) judge(s *side, ev event, pre invObs, out stepOut) {
 
 	// --- amtpaid
 	if post.Found && post.State == "Settled" && !post.IsAMP {
-		var sum int64
+		var sum uint64
 		for _, h := range post.Htlcs {
 			if h.State == "set" {
 				sum += h.Amt
@@ -575,18 +709,19 @@ func (w *World) judge(s *side, ev event, pre invObs, out stepOut) {
 		sort.Ints(ms)
 		w.st.clause("settle-conjunction")
 		var (
-			sum    int64
-			total  int64 = -1
-			desc   []string
-			common = true
+			sum      uint64
+			total    uint64
+			totalSet bool
+			desc     []string
+			common   = true
 		)
 		for _, k := range ms {
 			sp, arr, _ := w.specOf(ev, k)
-			desc = append(desc, fmt.Sprintf("k%d{amt %d, total %d, addr %q, expiry %d, arrived at %d}", k, sp.Amt, sp.declaredTotal(),
+			desc = append(desc, fmt.Sprintf("k%d{amt %d, total %d, addr %q, expiry %d, arrived at %d}", k, sp.recordedAmt(), sp.declaredTotal(),
 				string(rune0(sp.Addr)), sp.absExpiry(w.kind), arr))
-			sum += sp.Amt
-			if total == -1 {
-				total = sp.declaredTotal()
+			sum += sp.recordedAmt()
+			if !totalSet {
+				total, totalSet = sp.declaredTotal(), true
 			} else if total != sp.declaredTotal() {
 				common = false
 			}
@@ -687,13 +822,18 @@ func (w *World) judge(s *side, ev event, pre invObs, out stepOut) {
 
 	// --- replay
 	if ev.class == "replay" && out.direct != nil {
-		p := pre.htlc(ev.key)
-		if p != nil {
-			want := map[string]string{"acc": "accept", "set": "settle", "can": "fail"}[p.State]
-			w.st.clause("replay-" + p.State)
+		st, how := "", "is recorded as"
+		if p := pre.htlc(ev.key); p != nil {
+			st = p.State
+		} else if g, ok := w.ghost[si][ev.key]; ok && !pre.Found {
+			st, how = g, "was last recorded (on the invoice deleted since) as"
+		}
+		if st != "" {
+			want := map[string]string{"acc": "accept", "set": "settle", "can": "fail"}[st]
+			w.st.clause("replay-" + st)
 			if out.direct.Kind != want {
-				w.violate("replay", store, p.State+"->"+out.direct.String(), fmt.Sprintf("%s: htlc k%d is recorded as %s, its exact replay got %s instead of %s",
-					ev.op, ev.key, p.State, out.direct.String(), want))
+				w.violate("replay", store, st+"->"+out.direct.String(), fmt.Sprintf("%s: htlc k%d %s %s, its exact replay got %s instead of %s",
+					ev.op, ev.key, how, st, out.direct.String(), want))
 			}
 		}
 	}
